@@ -130,10 +130,12 @@ def idpool_string_key_rule(chk, repo, rule, rel, qual):
                                 changed = True
     sinks = 0
     bad = []
+    id_aliases = {t.id for n in ast.walk(fn) if isinstance(n, ast.Assign) and isinstance(n.value, ast.Attribute) and n.value.attr == "id" for t in n.targets if isinstance(t, ast.Name)}
     for sname, sfn in scopes.items():
         body_nodes = list(walk_no_nested(sfn)) if sname == "" else list(ast.walk(sfn))
         for n in body_nodes:
-            if isinstance(n, ast.Call) and isinstance(n.func, ast.Attribute) and n.func.attr == "id" and len(n.args) == 1:
+            is_id_call = isinstance(n, ast.Call) and len(n.args) == 1 and ((isinstance(n.func, ast.Attribute) and n.func.attr == "id") or (isinstance(n.func, ast.Name) and n.func.id in id_aliases))
+            if is_id_call:
                 sinks += 1
                 a = n.args[0]
                 if (isinstance(a, ast.Name) and a.id in tainted[sname]) or (is_strbuild(a) and not isinstance(a, ast.Constant)):
